@@ -51,6 +51,16 @@ def three_field_start():
                                  F('b', 'Int'), F('c', 'Int', null=True)])]))
 
 
+def columns_start():
+    """Column names that differ from the field names: a custom db_column
+    (indexed) and a relation."""
+    return P(A('va', [
+        M('Author', [F('name', 'Char', max_length=20)]),
+        M('Book', [F('title', 'Char', max_length=20,
+                     db_column='custom_title', db_index=True),
+                   F('author', 'FK', to='va.Author', null=True)])]))
+
+
 def indexed_start():
     """Fields that already carry a unique constraint / an index, so that
     the *removing* attribute changes are in the menu from the first step."""
@@ -651,7 +661,10 @@ class PathRunner(object):
                     dict(detail, way=way))
 
     # -- DFS -------------------------------------------------------------
-    def dfs(self, depth, level, kinds, prefix_filter=None, **alphabet_opts):
+    def dfs(self, depth, level, kinds, prefix_filter=None,
+            barrier_variants=False, **alphabet_opts):
+        barrier = ('va', ['SQLBarrier', 'barrier'])
+
         def rec(image, sig_ser, spec, path, rebuilds, idents, deleted):
             if len(path) >= depth:
                 return
@@ -682,6 +695,15 @@ class PathRunner(object):
                         {'start': self.start, 'steps': path2})
                 self.run_ways(path2, spec2, w1_obs, rebuilds2,
                               idents_view(idents2))
+                if barrier_variants and len(path2) >= 2:
+                    # the same path with an SQL barrier before its last
+                    # step: the stepwise outcome is the same, the batch is
+                    # cut in two (state must carry over the barrier)
+                    pb = path2[:-1] + [barrier] + path2[-1:]
+                    idb = advance_idents(advance_idents(
+                        idents, spec, barrier), spec2, step)
+                    self.run_ways(pb, spec2, w1_obs,
+                                  rebuilds + [[]] + [rb], idents_view(idb))
                 deleted2 = deleted + ([step[1][2]] if step[1][0] in
                                       ('DeleteField', 'RenameField') else [])
                 rec(img2, sig2, spec2, path2, rebuilds2, idents2, deleted2)
@@ -692,9 +714,10 @@ class PathRunner(object):
 
 def work(task):
     name, start, rows, depth, level, kinds, ways, first = task[:8]
-    opts = task[8] if len(task) > 8 else {}
+    opts = dict(task[8]) if len(task) > 8 else {}
     pr = PathRunner(start, rows, ways)
-    pr.dfs(depth, level, kinds, prefix_filter=first,
+    bv = bool(opts.pop('barrier_variants', False)) if opts else False
+    pr.dfs(depth, level, kinds, prefix_filter=first, barrier_variants=bv,
            **{k: tuple(v) for k, v in opts.items()})
     return name, pr.stats, pr.viol3, pr.viol18
 
@@ -706,14 +729,17 @@ def tasks_for(tier):
     tasks = []
     only = os.environ.get('VERIF_ONLY')
 
-    def shard(name, start, rows, depth, level, kinds, ways, **opts):
+    def shard(name, start, rows, depth, level, kinds, ways,
+              barrier_variants=False, **opts):
         if only and only not in name:
             return
         firsts = AL.enabled(start, level=level, kinds=kinds, **opts)
         for i, st in enumerate(firsts):
+            o = {k: list(v) for k, v in opts.items()}
+            if barrier_variants:
+                o['barrier_variants'] = True
             tasks.append(('%s#%d' % (name, i), start, rows, depth, level,
-                          kinds, ways, [S.canon(st)],
-                          {k: list(v) for k, v in opts.items()}))
+                          kinds, ways, [S.canon(st)], o))
     if tier == 'quick':
         shard('narrow-d3', narrow_start(), 'R2', 3, 'lite', NARROW_KINDS,
               ('W2', 'W5', 'W3'))
@@ -724,6 +750,12 @@ def tasks_for(tier):
         shard('indexed-d2', indexed_start(), 'R2', 2, 'full',
               ('AddField', 'DeleteField', 'ChangeField', 'RenameField'),
               ('W2', 'W3'))
+        # columns whose name differs from the field name (db_column,
+        # relations), every two-step path also with an SQL barrier between
+        # the steps
+        shard('columns-barrier-d2', columns_start(), 'R2', 2, 'full',
+              ('AddField', 'ChangeField', 'RenameField'), ('W2', 'W3'),
+              barrier_variants=True)
         # a relation added to a model that is then renamed twice
         shard('rename-chain-d3', two_model_start(), 'R2', 3, 'full',
               ('AddField', 'RenameModel'), ('W2', 'W3'),
